@@ -304,7 +304,7 @@ func (d *cacheDrv) apply(o cacheOp) {
 		if r := recover(); r != nil {
 			site := ""
 			for _, ln := range strings.Split(string(debug.Stack()), "\n") {
-				if strings.Contains(ln, "/repo/") {
+				if ln = strings.Replace(ln, repoRoot()+"/", "/repo/", 1); strings.Contains(ln, "/repo/") {
 					site = strings.TrimSpace(strings.Split(ln, " +")[0])
 					break
 				}
@@ -642,6 +642,19 @@ func (g *cacheGen) fresh(now *int64) cacheOp {
 	switch {
 	case x < 34: // single update
 		pre, p := g.dataPath(t, false)
+		if r.Intn(12) == 0 {
+			// a plain leaf exactly where an atomic container is (or was) stored, often with the value of one of its members
+			for _, h := range g.hist {
+				if h.T == t && h.Atomic && h.Prefix != nil && len(h.Ups) > 0 {
+					pre, p = &pathDesc{Target: t}, pathDesc{Elems: append([]elemDesc{}, h.Prefix.Elems...)}
+					v := randValFav(r, g.fav)
+					if r.Intn(2) == 0 {
+						v = h.Ups[0].Val
+					}
+					return cacheOp{Op: "GnmiUpdate", T: t, Ts: ts, Now: *now, Prefix: pre, Ups: []updDesc{{p, v}}}
+				}
+			}
+		}
 		if r.Intn(4) == 0 { // share the prefix object with other notifications
 			pre.Shared = 1 + r.Intn(3)
 			pre.Spare = 1 + r.Intn(3)
@@ -681,9 +694,24 @@ func (g *cacheGen) fresh(now *int64) cacheOp {
 		if r.Intn(3) == 0 {
 			pre.Elems = append(pre.Elems, elemDesc{Name: "a"})
 		}
+		if r.Intn(6) == 0 {
+			// ... or exactly where a plain leaf was written: a container replacing a leaf (and, through the
+			// single updates below, a leaf replacing a container) - the stored kind and the incoming kind differ
+			for _, h := range g.hist {
+				if h.T == t && !h.Atomic && len(h.Ups) == 1 && h.Prefix != nil && len(h.Prefix.Element)+len(h.Ups[0].Path.Element) == 0 && h.Prefix.Origin == "" {
+					pre = &pathDesc{Target: t, Elems: append(append([]elemDesc{}, h.Prefix.Elems...), h.Ups[0].Path.Elems...)}
+					break
+				}
+			}
+		}
 		o := cacheOp{Op: "GnmiUpdate", T: t, Ts: ts, Now: *now, Atomic: true, Prefix: pre}
 		for i, k := 0, r.Intn(4); i < k; i++ {
 			o.Ups = append(o.Ups, updDesc{pathDesc{Elems: []elemDesc{{Name: []string{"x", "y"}[r.Intn(2)]}}}, randValFav(r, g.fav)})
+		}
+		if len(o.Ups) > 0 && len(g.hist) > 0 && r.Intn(3) == 0 {
+			if h := g.hist[r.Intn(len(g.hist))]; len(h.Ups) > 0 {
+				o.Ups[0].Val = h.Ups[0].Val // a first member that equals some stored value
+			}
 		}
 		if r.Intn(12) == 0 {
 			o.Dels = append(o.Dels, pathDesc{Elems: []elemDesc{{Name: "x"}}})
